@@ -352,7 +352,7 @@ func (g *Gen) boundaryTable() []MsgSpec {
 	mut(func(d *DocSpec) { d.Id = "" })
 	mut(func(d *DocSpec) { d.VMs = nil })
 	mut(func(d *DocSpec) { d.Auth = nil })
-	for _, suf := range []string{"", "k", rep("k", 128), rep("k", 129), "a b", "a\tb", "é", rep("k", 127) + "é", "\f", "a\fb", "a\rb", "a\nb", "a\vb", "a\u00a0b", "a\u2003b", " k", "k "} {
+	for _, suf := range []string{"key1#", "key1#" + rep("k", 123), "key1#" + rep("k", 124), "key1#" + rep("k", 300), "key1#my key", "key1#a\tb", "#", "##", "a#b#c", "", "k", rep("k", 128), rep("k", 129), "a b", "a\tb", "é", rep("k", 127) + "é", "\f", "a\fb", "a\rb", "a\nb", "a\vb", "a\u00a0b", "a\u2003b", " k", "k "} {
 		s := suf
 		mut(func(d *DocSpec) { d.VMs[0].Id = good + "#" + s; d.Auth[0].Ref = good + "#" + s })
 	}
